@@ -4,7 +4,7 @@
 // and records; every decision is taken by the Python oracle.
 //
 //   plugin host_energy|link_energy
-//   host NAME CORES SPEED[,SPEED..] [key=value ...]            (properties, e.g. wattage_per_state=..., wattage_off=...)
+//   host NAME CORES SPEED[,SPEED..] [key=value ...]            (properties, e.g. wattage_per_state=..., wattage_off=...; @pstate=K: initial pstate)
 //   link NAME BW LAT SHARED|FATPIPE [key=value ...]
 //   route HOST1 HOST2 LINK[,LINK...]                           (symmetrical)
 //   profile KIND RES str PERIODICITY  + text lines + "endprofile"      KIND: speed hstate bw lat lstate
@@ -283,6 +283,7 @@ static int run_scenario(int argc, char** argv)
   std::vector<Route> routes;
   int nprof     = 0;
   bool from_xml = false;
+  std::vector<std::pair<sg4::Host*, unsigned long>> initial_pstates;
   for (size_t i = 0; i < lines.size(); i++) {
     std::istringstream is(lines[i]);
     std::vector<std::string> t;
@@ -315,6 +316,10 @@ static int run_scenario(int argc, char** argv)
       bool energy = false;
       for (size_t j = 4; j < t.size(); j++) {
         auto kv = t[j].find('=');
+        if (t[j].substr(0, kv) == "@pstate") { // initial pstate (the pstate attribute of the XML tag), applied once the platform is sealed
+          initial_pstates.emplace_back(h, std::stoul(t[j].substr(kv + 1)));
+          continue;
+        }
         h->set_property(t[j].substr(0, kv), t[j].substr(kv + 1));
         if (t[j].substr(0, kv) == "wattage_per_state")
           energy = true;
@@ -384,6 +389,8 @@ static int run_scenario(int argc, char** argv)
       zone->add_route(hmap.at(r.a), hmap.at(r.b), ls);
     }
     zone->seal();
+    for (auto const& [h, ps] : initial_pstates)
+      h->set_pstate(ps);
   }
 
   if (trace_time)
